@@ -8,7 +8,7 @@ ids="$@"; [ -z "$ids" ] && ids=$(ls seeded)
 missed=0
 for id in $ids; do
   git -C "$repo" checkout -q -- . 
-  if ! git -C "$repo" apply "seeded/$id/patch.diff" 2>/dev/null; then echo "$id: patch does not apply (repo moved on)"; continue; fi
+  if ! git -C "$repo" apply "$PWD/seeded/$id/patch.diff" 2>/dev/null; then echo "$id: patch does not apply (repo moved on)"; continue; fi
   checks=$(python3 -c "import json;print(' '.join(json.load(open('seeded/$id/meta.json'))['caught_by']))")
   caught=""
   for p in $checks; do
